@@ -592,5 +592,5 @@ class Prop:
 Prop.required_theorems = [
     'installed_eq_fold_at_eod', 'installed_eq_fold_pre_refuted', 'apply_evs_runs_pdus', 'rtr_fragmentation_invariant',
     'rtr_idle_buffer_incomplete', 'rtr_client_progress', 'rtr_client_progress_pre_refuted', 'caches_isolated', 'session_end_clears',
-    'conn_only_live_session', 'conn_no_session_no_vrps', 'conn_foreign_untouched', 'conn_up_iff_serving', 'conn_session_fold', 'conn_cancel_race_pre_refuted',
+    'conn_only_live_session', 'conn_no_session_no_vrps', 'conn_foreign_untouched', 'conn_up_iff_serving', 'conn_session_fold', 'conn_soft_reset_keeps_table', 'conn_cancel_race_pre_refuted',
 ]
